@@ -79,8 +79,8 @@ def r2(ctx, R):
     if len(ws) != 1:
         R.bad(nm, nm.node, "new_model does not register the model exactly once", stmt="models[...] =")
     else:
-        k, v = norm(ws[0].targets[0].slice), norm(ws[0].value)
-        if k != v + ".name":
+        k, v = q.rnorm(nm, ws[0].targets[0].slice), q.rnorm(nm, ws[0].value)
+        if k not in (v + ".name",) and not (k.endswith(".name") and k[:-5] == v):
             R.bad(nm, ws[0], "model registered under `%s`, which is not the name of `%s`" % (k, v))
         mk = [c for c in q.calls(nm, name="ModelImpl")]
         if len(mk) != 1 or not q.dominated(nm, mk, ws[0]):
@@ -110,7 +110,7 @@ def r2(ctx, R):
     cm = ctx.func("System.close_model")
     dels = [st for st, t in q.subscript_writes(cm, ("models", "_models")) if isinstance(st, ast.Delete)]
     R.inst("close_model: del models[model.name], only while that entry is this very model")
-    if len(dels) != 1 or norm(dels[0].targets[0].slice) != "model.name":
+    if len(dels) != 1 or q.rnorm(cm, dels[0].targets[0].slice) != "model.name":
         R.bad(cm, cm.node, "close_model does not remove exactly the entry of the closed model", stmt="del models[...]")
     elif ("self.models.get(model.name) is not model", "F") not in q.guards_of(cm, dels[0]):
         R.bad(cm, dels[0], "closing a stale handle removes whatever model is registered under that name now "
